@@ -23,7 +23,9 @@ LEVEL_NOTE = ("Theorems are about Exec/RuntimeMachine.v, where execute_fields_se
 RULE = ("mutations with 1-4 top-level fields (deferred or immediate) with nested deferred sub-fields / lists, a "
         "ResolverError moved over every top-level position, RuntimeErrors; all 4 configurations, all completion "
         "orders (exhaustive within the tier's bound); three schema layouts (distinct roots; one ObjectType as query "
-        "and mutation root; mutation root also the nested object type); plus queries of the same shapes (overlap must be possible); "
+        "and mutation root; mutation root also the nested object type); root (and some nested) selections written "
+        "with inline fragments / fragment spreads that select earlier response keys again (expected order = first "
+        "occurrence, computed from the document independently of collect_fields); plus queries of the same shapes (overlap must be possible); "
         "non-trivial = a deferred configuration of a mutation with >= 2 top-level fields; distinct = distinct "
         "(program, configuration)")
 
@@ -46,6 +48,12 @@ def _corpus_programs():
     ps.append(dict(ps[0], layout="shared"))
     ps.append(dict(ps[1], layout="shared"))
     ps.append(dict(ps[0], layout="mutnested"))
+    # a top-level field selected again inside a later fragment spread / inline fragment keeps its
+    # (first-occurrence) position
+    ps.append(dict(ps[0], render=[["f", 0], ["spread", "Rest", [["f", 3], ["f", 0]]], ["f", 6]]))
+    ps.append(dict(ps[1], render=[["f", 0], ["f", 1], ["inline", True, [["f", 2], ["f", 0], ["f", 3], ["f", 1]]]],
+                   layout="shared"))
+    ps.append(dict(ps[2], render=[["inline", False, [["f", 0]]], ["spread", "A", [["f", 2], ["f", 0]]]]))
     return ps
 
 
@@ -87,6 +95,8 @@ def generate(rng, tier):
                                   p_exn=0.04 if j % 5 == 0 else 0.0, p_err=0.1,
                                   modes=("S", "P", "C", "C", "C"), top=(ntop, ntop), depth=2)
         p["layout"] = LAYOUT_CYCLE[(j // 4) % 4]
+        if ntop >= 2 and j % 2 == 1:
+            p = gen_sched.add_render(rng, p)
         progs = [p]
         if op == "mutation" and (j % 2 == 0 or not quick):
             # failures at every position
@@ -120,8 +130,13 @@ def nontrivial(case, obs):
 canonical = c08.canonical
 
 
+def _doc_fields(prog):
+    """top-level fields in the document's first-occurrence order of response keys"""
+    return sp.ordered_program(prog)["fields"]
+
+
 def _serial_violation(prog, events):
-    order = {f["k"]: i for i, f in enumerate(prog["fields"])}
+    order = {f["k"]: i for i, f in enumerate(_doc_fields(prog))}
     cur = 0
     for _kind, (path, _lvl) in events:
         i = order.get(path[0])
@@ -139,10 +154,10 @@ def classify(case, obs):
     for r in obs["runs"]:
         if "data" in r and r["data"] is not None:
             keys = [k for k, _v in r["data"]["o"]]
-            if keys != [f["k"] for f in prog["fields"]]:
+            if keys != [f["k"] for f in _doc_fields(prog)]:
                 return "response lists the fields in document order", None
             inv = {tuple(e[1][0]) for e in r["events"] if e[0] == "invoke"}
-            if any((f["k"],) not in inv for f in prog["fields"]):
+            if any((f["k"],) not in inv for f in _doc_fields(prog)):
                 return "a failed top-level field does not prevent the later ones from running", None
     return c08.classify(case, obs)
 
